@@ -588,6 +588,13 @@ def transpose_copy_cases(tier):
     for dm in rt.stress_matrices():
         for lay in rt.LAYOUTS:
             yield {'A': dm.tolist(), 'layout': lay, 'zeros': 'z1' if np.any(dm == 0) else 'nz', 'type': 'OTU table'}
+    # histories that leave metadata whose remaining entries are all empty: metadata added for one id only, then that id
+    # filtered away in place (the constructor would call such metadata absent; a copy must still equal its original)
+    for axis in ('sample', 'observation'):
+        for lay in rt.LAYOUTS:
+            yield {'A': _distinct(3, 3).tolist(), 'layout': lay, 'zeros': 'nz', 'obs_md': 'none', 'samp_md': 'none',
+                   'prior': [{'op': 'add_metadata', 'axis': axis, 'kind': 'one'},
+                             {'op': 'filter', 'axis': axis, 'sel': [0], 'form': 'list', 'invert': True, 'inplace': True}]}
 
 
 def update_ids_cases(tier):
